@@ -70,6 +70,14 @@ def run_lifecycle(sc):
                                         params=params, read_timeout=read_timeout)
         if sc['peer']:
             peer = isotp.CanStack(bus2, address=core.make_address(b), params=peer_params, read_timeout=0.02)
+    if sc.get('slow_put'):
+        # the thread that posts into the relay queue is descheduled right after each put (a schedule the OS is free to choose)
+        _put = L.rx_relay_queue.put
+
+        def slow_put(item, *a, **k):
+            _put(item, *a, **k)
+            time.sleep(sc['slow_put'])
+        L.rx_relay_queue.put = slow_put
     if peer is not None:
         peer.start()
     base_threads = set(threading.enumerate())
@@ -293,9 +301,10 @@ class C14(PropBase):
 
         # a reading thread that really blocks for a read_timeout above the 1 s floor of stop()'s join: stop() has to wait for it
         for ops in (['start', 'sleep', 'stop'], ['start', 'send_sf', 'sleep', 'stop', 'start', 'sleep', 'stop']):
-            k += 1
-            yield {'ops': [], 'ops_list': list(ops), 'addrs': (a, b), 'kind': 'tl', 'peer': False, 'read_timeout': 1.6, 'bs': 2, 'stmin': 0,
-                   'seed': 1000 + k}
+            for slow in (0, 0.1):
+                k += 1
+                yield {'ops': [], 'ops_list': list(ops), 'addrs': (a, b), 'kind': 'tl', 'peer': False, 'read_timeout': 1.6, 'bs': 2, 'stmin': 0,
+                       'seed': 1000 + k, 'slow_put': slow}
         # a reception in progress, a reading / worker thread that blocks for longer than the 1 s stop_receiving() waits for its acknowledgement
         for rt in (1.6, 0.05):
             for ops in (['start', 'inject_ff', 'sleep', 'sleep', 'stop_receiving', 'stop'], ['start', 'inject_ff', 'sleep', 'sleep', 'stop_receiving', 'sleep', 'stop_receiving', 'stop']):
